@@ -69,6 +69,15 @@ def check_spec(ctx, cell, case):
         ctx.cls("d_true_decided")
     else:
         ctx.cls("d_true_undecided_k_and_r_too_large")
+        # exact d is out of reach: at least rule out codewords of weight 1 and 2 (a zero column, resp. two equal columns, of a check
+        # matrix computed from the encoder's image by the reference null space) whenever the code advertises d >= 3
+        adv0 = advertised_distance(enc)
+        if adv0 is not None and adv0 >= 3:
+            Hn = gf2.null_space(rows, n)
+            cols = [sum(((h >> j) & 1) << i for i, h in enumerate(Hn)) for j in range(n)]
+            ctx.ev()
+            ctx.check(0 not in cols and len(set(cols)) == n, "C03.b_lower_bound", cell, case, {"codeword_of_weight_le_2": True}, {"advertised": int(adv0)},
+                      "the code contains a word of weight <= 2 although it advertises a minimum distance >= 3", CHK)
     adv = advertised_distance(enc)
     t_adv = getattr(enc, "error_correction_capability", None)
     delta = getattr(enc, "delta", None)
@@ -143,6 +152,11 @@ def unit_specs(ctx, specs):
 def units(tier, seed):
     T = tier == "thorough"
     specs = cat.structured_specs(tier, seed)
+    if not T:
+        # the property quantifies over all BCH codes with mu <= 6: the shared quick catalogue stops at mu = 4, C03 is cheap enough for all
+        for mu in (5, 6):
+            for delta in range(2, 2 ** mu):
+                specs.append({"family": "bch", "mu": mu, "delta": delta, "info": "left", "probe": True})
 
     def w(s):
         n, k = (0, 0)
